@@ -124,6 +124,14 @@ def step (st : St) (j : Json) : St × List String :=
     let k := 2 * (s0.mem.lcHigh / cfg.pageSize + 1) + 2
     let s := (List.range k).foldl (fun s _ => checkPage cfg s) s0
     ({ st with s := s }, ["liveRepair | " ++ observe s j])
+  | "checkRace" =>
+    -- an Add that commits after checkPage read the atomic clock and before its write transaction
+    let tx := parseTx (jObj j "tx")
+    let payload := match jStr j "payload" with | "ok" => some true | "bad" => some false | _ => none
+    let lcSeen := st.s.mem.lcHigh
+    let r := add cfg st.s tx { payload := payload }
+    let s := checkPageWith cfg lcSeen r.1
+    ({ st with s := s }, [s!"checkRace {resStr r.2} page={s.mem.repairPage} | " ++ observe s j])
   | "check" =>
     let s := checkPage cfg st.s; ({ st with s := s }, [s!"check page={s.mem.repairPage} | " ++ observe s j])
   -- ---------------- tree level
